@@ -36,6 +36,8 @@ var c06Probes = [][]byte{
 	[]byte("VERIFA rest"), []byte("VERIFAD rest"), []byte("verifb: hello"), []byte("PK\x03\x04VC...."), []byte("%PDF-VE 1.4"), []byte("%PDF-1.4"),
 	[]byte("{\"verif\":1}"), []byte("{\"a\":1}"), []byte("plain text that is long enough to be cut by the limit 8"), {0x89, 'P', 'N', 'G', 0x0D, 0x0A, 0x1A, 0x0A, 0, 0},
 	[]byte("<html><body>x</body></html>"), {}, []byte("a,b\n1,2\n3,4\n"),
+	[]byte("{\"a\":1,\"b\":2,\"c\":[1,2,3]}"), []byte("a,b,c\n1,2,3\n4,5,6\n7,8,9\n10,11,12\n"), []byte("{\"a\":1}\n{\"b\":2}\n{\"c\":3}\n{\"d\":4}\n"),
+	[]byte("[1,2,3,4,5,6,7,8,9,10,11,12,13,14,15,16,17,18,19,20,21,22,23,24,25,26,27,28,29,30,31,32]"),
 }
 var c06Names = []string{"application/x-verif-a", "application/x-verif-a-alias", "text/x-verif-b2", "application/x-verif-d-alias", "a/e3", "a/f1", "application/zip", "text/plain", "application/json", "nope/nope"}
 
@@ -162,6 +164,24 @@ func cmdRunC06(args []string) {
 			mimetype.SetLimit(c06Limits[i%len(c06Limits)])
 		}
 	}()
+	// concurrent Extend calls on one node by several goroutines: formats nobody probes for (never matching),
+	// so the sequential oracle is unaffected, but every one of them must be found afterwards
+	var extra []string
+	for w := 0; w < 4; w++ {
+		for k := 0; k < 6; k++ {
+			extra = append(extra, fmt.Sprintf("application/x-verif-extra-%d-%d", w, k))
+		}
+	}
+	for w := 0; w < 4; w++ {
+		wg.Add(1)
+		go func(w int) {
+			defer wg.Done()
+			<-start
+			for k := 0; k < 6; k++ {
+				mimetype.Lookup("application/pdf").Extend(func([]byte, uint32) bool { return false }, extra[w*6+k], ".vx")
+			}
+		}(w)
+	}
 	// readers
 	for g := 0; g < 6; g++ {
 		wg.Add(1)
@@ -197,6 +217,11 @@ func cmdRunC06(args []string) {
 	c.stats.Extra["goroutines"] = 8
 	c.stats.Extra["rounds"] = rounds
 	c.stats.sample(fmt.Sprintf("c06: 6 reader goroutines (Detect, DetectReader, Lookup+accessors) x %d rounds against 2 writers (6 Extend calls with caller-owned alias slices of spare capacity; SetLimit cycling %v); %d results checked against the sequential oracle of %d entries", rounds, c06Limits, nres, len(oracle)))
+	for _, n := range extra {
+		if m := mimetype.Lookup(n); m == nil || m.Parent() == nil || m.Parent().String() != "application/pdf" {
+			c.propfail("C06", "an extension registered concurrently with other Extend calls on the same node is lost: "+n)
+		}
+	}
 	for k := range bad {
 		c.propfail("C06", "result under concurrency is not one a sequential execution produces for any version/limit: "+strings.ReplaceAll(k, "\t", " "))
 	}
